@@ -16,7 +16,7 @@ SERIAL = os.environ.get("VERIF_TIER") == "quick"   # heavily loaded machine: a f
 TECHNIQUE = ("model-based generation of event histories (Hypothesis) over the real Cluster/ControlConnection/Session/pools/"
              "scheduler/reconnection handlers on a deterministic simulated network and virtual clock; history invariants as oracle")
 RULE = ("A case is 2-3 fake nodes (optionally one IGNORED by the load-balancing policy), 1-2 sessions, "
-        "ConstantReconnectionPolicy(1 s) and up to ~20 generated events (free sequences, or an outage / removal-racing-reconnection / rejoin-while-unreachable skeleton with generated events interleaved): a pool connection fails (peer closes it and a request "
+        "ConstantReconnectionPolicy with a delay of 1 s, 0.5 s or 0 s (a valid, falsy value) and up to ~20 generated events (free sequences, or an outage / removal-racing-reconnection / rejoin-while-unreachable skeleton with generated events interleaved): a pool connection fails (peer closes it and a request "
         "is routed to that host), a node goes down (refuses connections, its sockets are closed) / comes back / refuses the "
         "next k connection attempts, the control node pushes STATUS_CHANGE UP/DOWN or TOPOLOGY_CHANGE NEW_NODE/REMOVED_NODE "
         "(with or without the system tables agreeing), a node leaves / rejoins the topology, the node list is refreshed, a "
@@ -85,6 +85,7 @@ def s_case(gran):
         "hosts": st.integers(2, 3),
         "sessions": st.sampled_from([1, 1, 2]),
         "ignored": st.sampled_from([None, None, None, 1, 2]),
+        "rdelay": st.sampled_from([1.0, 1.0, 1.0, 0.0, 0.5]),
         "events": events,
         "tape": st.lists(st.integers(0, 3), max_size=40 if gran == "locks" else 10),
         "gran": st.just(gran),
@@ -103,6 +104,7 @@ def enum_cases(chunk):
             if tape and tape[-1] == 0:
                 continue        # trailing zeros are the default choice: same schedule as the shorter tape
             yield {"hosts": 2, "sessions": chunk["sessions"], "ignored": None, "gran": "blocking", "tape": [],
+                   "rdelay": 1.0 if len(tape) % 2 == 0 else 0.0,
                    "events": [["node_down", 0, True], ["advance", 0.3], ["tape", list(tape)], ["status", "UP", 0],
                               ["advance", 0.15], ["advance", 1.0], ["node_up", 0], ["advance", 1.5]]}
 
@@ -224,7 +226,7 @@ def _run(case, ctx, sim):
 
     dist = {ignored_addr: "ignored"} if ignored_addr else None
     cluster = sim.make_cluster(addrs[:1], execution_profiles=S.separate_profiles(prof, lambda: S.plan_policy(distances=dist)),
-                               reconnection_policy=ConstantReconnectionPolicy(1.0, max_attempts=None))
+                               reconnection_policy=ConstantReconnectionPolicy(case.get("rdelay", 1.0), max_attempts=None))
     S.deterministic_sessions(cluster)
     S.deterministic_futures(sim)
     cluster.register_listener(S.recording_listener(lis_log, clock=lambda: world.now))
